@@ -40,12 +40,12 @@ Proof.
 Qed.
 
 (* what CopyBroadcastReceiver::receive does once receive_next has positioned the receiver on a live record *)
-Lemma receive_after m w mm r r1 e T :
+Lemma receive_after m w hv mm r r1 e T :
   receive_next m w cap mm r = Ok (r1, true) -> lapped r1 = lapped r ->
   get64 mm (intent_idx cap) = T -> T < lim w -> 0 <= T ->
   ent_wf cap e -> is_pad e = false -> intact cap mm e ->
   cursor r1 = e_pos e -> record_offset r1 = e_pos e mod cap -> T < e_pos e + cap -> e_pos e < T ->
-  receive m w cap mm r =
+  receive m w hv cap mm r =
     if e_len e - 8 >? SCRATCH then Ok (r1, RErr InsufficientCapacity)
     else if negb (known_type (e_ty e)) then Panic
     else Ok (r1, RMsg (e_ty e) (e_bs e)).
@@ -58,6 +58,10 @@ Proof.
   rewrite Lp, Z.eqb_refl. cbn [negb]. rewrite Ro, I1.
   rewrite sub32_ok by (unfold in_i32, two31, HL, BC_HEADER_LENGTH; lia). cbn [bind].
   change HL with 8.
+  assert (HV : (if hv then do_validate m w cap mm (cursor r1) else Ok true) = Ok true).
+  { destruct hv; auto. rewrite Cu, (do_validate_ok m w mm (e_pos e) T) by (auto; lia).
+    replace (e_pos e + cap >? T) with true by lia. reflexivity. }
+  rewrite HV. cbn [bind negb].
   destruct (e_len e - 8 >? SCRATCH) eqn:Big; auto.
   rewrite I2. destruct (negb (known_type (e_ty e))) eqn:Kn; auto.
   rewrite add32_ok by (unfold in_i32, two31; lia). cbn [bind].
@@ -69,11 +73,11 @@ Proof.
   replace (Z.to_nat (e_len e - 8)) with (length (e_bs e)) by lia. rewrite I3. reflexivity.
 Qed.
 
-Lemma receive_refines m w c0 mm ch r sr :
+Lemma receive_refines m w hv c0 mm ch r sr :
   inv cap c0 mm ch -> rx_rel c0 ch r sr -> c_tail ch < lim w ->
   match spec_receive cap ch sr with
-  | Some (sr', res) => exists r', receive m w cap mm r = Ok (r', res) /\ rx_rel c0 ch r' sr'
-  | None => receive m w cap mm r = Panic
+  | Some (sr', res) => exists r', receive m w hv cap mm r = Ok (r', res) /\ rx_rel c0 ch r' sr'
+  | None => receive m w hv cap mm r = Panic
   end.
 Proof.
   intros I (Nr & Lp & done & rest & Elog & Cd & Cr) Lim. pose proof CB.
@@ -183,7 +187,7 @@ Proof.
       replace ((n <=? e_pos e) && negb true) with false by (cbn [negb]; symmetry; apply andb_false_r).
       cbn [find].
       replace ((n <=? e_pos e2) && negb (is_pad e2)) with true by (rewrite PO1; cbn [negb]; unfold e_end in *; lia).
-      pose proof (receive_after m w mm r r1 e2 T RN eq_refl (inv_intent _ _ _ _ I) Lim ltac:(lia) We2 PO1 Int2) as RA.
+      pose proof (receive_after m w hv mm r r1 e2 T RN eq_refl (inv_intent _ _ _ _ I) Lim ltac:(lia) We2 PO1 Int2) as RA.
       rewrite RA by (subst r1; cbn [cursor record_offset]; unfold e_end in *; lia). clear RA.
       assert (Rel : rx_rel c0 ch r1 {| s_next := e_end e2; s_lapped := s_lapped sr |}).
       { unfold rx_rel. subst r1. cbn [next_record lapped s_next s_lapped]. unfold e_end in *.
@@ -199,7 +203,7 @@ Proof.
                     record_offset := e_pos e mod cap; lapped := lapped r |}) in *.
       assert (RN : receive_next m w cap mm r = Ok (r1, true)) by (apply RNhead; reflexivity).
       replace ((n <=? e_pos e) && negb false) with true by (cbn [negb]; lia).
-      pose proof (receive_after m w mm r r1 e T RN eq_refl (inv_intent _ _ _ _ I) Lim ltac:(lia) We Pd Int) as RA.
+      pose proof (receive_after m w hv mm r r1 e T RN eq_refl (inv_intent _ _ _ _ I) Lim ltac:(lia) We Pd Int) as RA.
       rewrite RA by (subst r1; cbn [cursor record_offset]; unfold e_end in *; lia). clear RA.
       assert (Rel : rx_rel c0 ch r1 {| s_next := e_end e; s_lapped := s_lapped sr |}).
       { unfold rx_rel. subst r1. cbn [next_record lapped s_next s_lapped]. unfold e_end in *.
@@ -245,10 +249,10 @@ Definition op_ok (o : op) : Prop := match o with Transmit ty _ => in_i32 ty = tr
 Lemma lim_le w : lim w <= 2 ^ 62.
 Proof. pose proof CB. destruct w; unfold lim, two31; lia. Qed.
 
-Lemma run_refines m w c0 h : forall mm r ch sr,
+Lemma run_refines m w hv c0 h : forall mm r ch sr,
   inv cap c0 mm ch -> rx_rel c0 ch r sr -> Forall op_ok h ->
   c_tail ch + 2 * cap * Z.of_nat (length h) < lim w ->
-  map erase (run m w cap (mkSys mm r) h) = spec_run cap (mkSst ch sr) h.
+  map erase (run m w hv cap (mkSys mm r) h) = spec_run cap (mkSst ch sr) h.
 Proof.
   pose proof CB. pose proof (lim_le w).
   induction h as [|o h IH]; intros mm r ch sr I R Ok Bd; [reflexivity|].
@@ -266,7 +270,7 @@ Proof.
       cbn [map erase]. f_equal. apply IH; auto. nia.
   - (* receive *)
     unfold step, spec_step. cbn [smem Broadcast.srx s_ch s_rx].
-    pose proof (receive_refines m w c0 mm ch r sr I R ltac:(nia)) as RR.
+    pose proof (receive_refines m w hv c0 mm ch r sr I R ltac:(nia)) as RR.
     destruct (spec_receive cap ch sr) as [[sr' res]|].
     + destruct RR as (r' & E & R'). rewrite E. cbn [map erase]. destruct R' as (Nr' & Lp' & X).
       rewrite Lp'. f_equal. apply IH; auto. * repeat split; auto. * nia.
@@ -322,18 +326,18 @@ Proof.
     rewrite <- Pe, P. repeat split; auto. cbn in C2. apply C2.
 Qed.
 
-Theorem history_refines m w c0 pre h :
+Theorem history_refines m w hv c0 pre h :
   0 <= c0 -> c0 mod 8 = 0 ->
   Forall (fun p => in_i32 (fst p) = true) pre -> Forall op_ok h ->
   c0 + 2 * cap * (Z.of_nat (length pre) + Z.of_nat (length h)) < lim w ->
-  map erase (run_history m w cap c0 pre h) = spec_history cap c0 pre h.
+  map erase (run_history m w hv cap c0 pre h) = spec_history cap c0 pre h.
 Proof.
   intros H0 H8 Op Oh Bd. pose proof CB. pose proof (lim_le w).
   unfold run_history, spec_history, init_sys, spec_init.
   assert (I0 : inv cap c0 (init_mem cap c0) (chan_init c0)) by (apply inv_init; auto; nia).
   destruct (pre_refines m c0 pre _ _ I0 Op) as [I1 B1]; [cbn [chan_init c_tail]; nia|].
   cbn [chan_init c_tail] in B1.
-  apply (run_refines m w c0); auto.
+  apply (run_refines m w hv c0); auto.
   - apply rx_new_rel; auto.
   - nia.
 Qed.
